@@ -17,7 +17,8 @@ from engine import (Check, tlc_ok, validate_traces, pmap, run, tool_env, BIN,
                     scratch, syms, MachineryError)
 import regen
 
-ROLES = ['source', 'output', 'srcdir', 'outdir', 'copy', 'install', 'insthdr']
+ROLES = ['source', 'output', 'srcdir', 'outdir', 'copy', 'install', 'insthdr',
+         'depfile']
 PUNCT = list('!"#$%&\'()*+,-.:;<=>?@[]^_`{|}~ ')
 
 
@@ -143,6 +144,13 @@ def project_for(role, n):
     elif role == 'outdir':
         bfg = "executable(%r, ['main.c'])" % (n + '/prog')
         prereq, outs = 'main.c', [('file', n + '/prog')]
+    elif role == 'depfile':
+        # the object (and so its depfile) carries the name; the prerequisite
+        # that changes is a header known only through that depfile
+        files[n + '.c'] = '// deps: common.h\nint f(void){return 1;}\n'
+        files['common.h'] = '#define C 1\n'
+        bfg = "executable('prog', ['main.c', %r])" % (n + '.c')
+        prereq, outs = 'common.h', [('obj', n + '.c')]
     elif role == 'install':
         bfg = "install(executable(%r, ['main.c']))" % n
         prereq, outs = 'main.c', [('file', n)]
